@@ -223,6 +223,28 @@ impl PartialEqSpecImpl for Uint64 {
 }
 impl PartialEq for Uint64 { fn eq(&self, o: &Uint64) -> (r: bool) { self.0 == o.0 } }
 impl Eq for Uint64 {}
+impl PartialOrdSpecImpl for Uint64 {
+    open spec fn obeys_partial_cmp_spec() -> bool { true }
+    open spec fn partial_cmp_spec(&self, o: &Uint64) -> Option<core::cmp::Ordering> {
+        if self.0 < o.0 { Some(core::cmp::Ordering::Less) } else if self.0 == o.0 { Some(core::cmp::Ordering::Equal) } else { Some(core::cmp::Ordering::Greater) }
+    }
+}
+impl PartialOrd for Uint64 {
+    fn partial_cmp(&self, o: &Uint64) -> (r: Option<core::cmp::Ordering>) {
+        if self.0 < o.0 { Some(core::cmp::Ordering::Less) } else if self.0 == o.0 { Some(core::cmp::Ordering::Equal) } else { Some(core::cmp::Ordering::Greater) }
+    }
+}
+impl OrdSpecImpl for Uint64 {
+    open spec fn obeys_cmp_spec() -> bool { true }
+    open spec fn cmp_spec(&self, o: &Uint64) -> core::cmp::Ordering {
+        if self.0 < o.0 { core::cmp::Ordering::Less } else if self.0 == o.0 { core::cmp::Ordering::Equal } else { core::cmp::Ordering::Greater }
+    }
+}
+impl Ord for Uint64 {
+    fn cmp(&self, o: &Uint64) -> (r: core::cmp::Ordering) {
+        if self.0 < o.0 { core::cmp::Ordering::Less } else if self.0 == o.0 { core::cmp::Ordering::Equal } else { core::cmp::Ordering::Greater }
+    }
+}
 impl core::default::Default for Uint64 { fn default() -> (r: Self) ensures r.0 == 0 { Uint64(0) } }
 impl Uint64 {
     pub const fn new(v: u64) -> (r: Uint64) ensures r.0 == v { Uint64(v) }
@@ -325,6 +347,34 @@ impl Timestamp {
         ensures self.0.0 + s * 1_000_000_000 <= u64::MAX, r.0.0 == self.0.0 + s * 1_000_000_000
     { unimplemented!() }
     pub fn from_nanos(n: u64) -> (r: Timestamp) ensures r.0.0 == n { Timestamp(Uint64(n)) }
+}
+impl PartialEqSpecImpl for Timestamp {
+    open spec fn obeys_eq_spec() -> bool { true }
+    open spec fn eq_spec(&self, o: &Timestamp) -> bool { self.0.0 == o.0.0 }
+}
+impl PartialEq for Timestamp { fn eq(&self, o: &Timestamp) -> (r: bool) { self.0.0 == o.0.0 } }
+impl Eq for Timestamp {}
+impl PartialOrdSpecImpl for Timestamp {
+    open spec fn obeys_partial_cmp_spec() -> bool { true }
+    open spec fn partial_cmp_spec(&self, o: &Timestamp) -> Option<core::cmp::Ordering> {
+        if self.0.0 < o.0.0 { Some(core::cmp::Ordering::Less) } else if self.0.0 == o.0.0 { Some(core::cmp::Ordering::Equal) } else { Some(core::cmp::Ordering::Greater) }
+    }
+}
+impl PartialOrd for Timestamp {
+    fn partial_cmp(&self, o: &Timestamp) -> (r: Option<core::cmp::Ordering>) {
+        if self.0.0 < o.0.0 { Some(core::cmp::Ordering::Less) } else if self.0.0 == o.0.0 { Some(core::cmp::Ordering::Equal) } else { Some(core::cmp::Ordering::Greater) }
+    }
+}
+impl OrdSpecImpl for Timestamp {
+    open spec fn obeys_cmp_spec() -> bool { true }
+    open spec fn cmp_spec(&self, o: &Timestamp) -> core::cmp::Ordering {
+        if self.0.0 < o.0.0 { core::cmp::Ordering::Less } else if self.0.0 == o.0.0 { core::cmp::Ordering::Equal } else { core::cmp::Ordering::Greater }
+    }
+}
+impl Ord for Timestamp {
+    fn cmp(&self, o: &Timestamp) -> (r: core::cmp::Ordering) {
+        if self.0.0 < o.0.0 { core::cmp::Ordering::Less } else if self.0.0 == o.0.0 { core::cmp::Ordering::Equal } else { core::cmp::Ordering::Greater }
+    }
 }
 pub struct BlockInfo { pub height: u64, pub time: Timestamp, pub chain_id: String }
 pub struct ContractInfo { pub address: Addr }
